@@ -230,9 +230,13 @@ class LiteDRAMNativePortUpConverter(Module):
             )
         )
 
+        # Chunks of a port_to word are filled/returned in ascending order: a command targeting a chunk
+        # that is not above all the chunks already selected has to start a new port_to command.
+        order_break      = Signal()
         self.comb += [
             cmd_buffer.source.ready.eq(wdata_finished | rdata_finished),
             addr_changed.eq(cmd_addr[log2_int(ratio):] != port_from.cmd.addr[log2_int(ratio):]),
+            order_break.eq(port_from.cmd.valid & ((sel >> port_from.cmd.addr[:log2_int(ratio)]) != 0)),
             # Collision happens on write to read transition when address does not change.
             rw_collision.eq(cmd_we & (port_from.cmd.valid & ~port_from.cmd.we) & ~addr_changed),
             # Go to the next command if one of the following happens:
@@ -242,7 +246,7 @@ class LiteDRAMNativePortUpConverter(Module):
             #  - this is the last command in a sequence.
             #  - master requests a flush (even after the command has been sent).
             next_cmd.eq(addr_changed | (cmd_we != port_from.cmd.we) | (sel == 2**ratio - 1)
-                        | cmd_last | port_from.flush),
+                        | cmd_last | port_from.flush | order_break),
         ]
 
         self.sync += [
